@@ -298,6 +298,202 @@ pub fn run_faulted(seed: u64, hist: u64, fault: Option<FaultSpec>, trace_on: boo
     out
 }
 
+const QT: redb::TableDefinition<u64, &[u8]> = redb::TableDefinition::new("q");
+
+struct QueuedOut {
+    fired: bool,
+    commit_failed: bool,
+    queued_refused: bool,
+    violation: Option<String>,
+}
+
+/// Writer B is waiting inside begin_write() for the write slot while writer A's commit hits a
+/// storage failure: B must be refused (or, if it is handed a transaction, that is a violation
+/// of "later write attempts are refused"), nothing may panic, reads stay correct, and the storage
+/// left behind must reopen to the state before or after A's commit.
+fn queued_writer_case(seed: u64, case: u64) -> QueuedOut {
+    use std::sync::atomic::{AtomicBool, Ordering};
+    let mut rng = Rng::for_case(seed, "C08queued", case);
+    let mut out = QueuedOut { fired: false, commit_failed: false, queued_refused: false, violation: None };
+    let cfg = Cfg { page_size: 512, region_pages: Some(64), cache: *rng.pick(&[0usize, 4096, 1 << 20]) };
+    let be = MonBackend::new();
+    let db = match cfg.builder().create_with_backend(be.clone()) {
+        Ok(d) => std::sync::Arc::new(d),
+        Err(e) => {
+            out.violation = Some(format!("create: {e}"));
+            return out;
+        }
+    };
+    let fill = |db: &redb::Database, tag: u8, n: u64| -> Result<(), String> {
+        let txn = db.begin_write().map_err(|e| e.to_string())?;
+        {
+            let mut t = txn.open_table(QT).map_err(|e| e.to_string())?;
+            for i in 0..n {
+                t.insert(i, vec![tag; 40 + (i as usize * 37) % 700].as_slice()).map_err(|e| e.to_string())?;
+            }
+        }
+        txn.commit().map_err(|e| e.to_string())
+    };
+    if let Err(e) = fill(&db, 1, 30) {
+        out.violation = Some(format!("prelude: {e}"));
+        return out;
+    }
+    let read_tag = |db: &redb::Database| -> Result<u8, String> {
+        let rt = db.begin_read().map_err(|e| format!("begin_read: {e}"))?;
+        let t = rt.open_table(QT).map_err(|e| format!("open_table: {e}"))?;
+        let mut tag = None;
+        let mut n = 0;
+        for e in redb::ReadableTable::iter(&t).map_err(|e| e.to_string())? {
+            let (k, v) = e.map_err(|e| e.to_string())?;
+            let v = v.value();
+            if v.is_empty() || v.iter().any(|b| *b != v[0]) || v.len() != 40 + (k.value() as usize * 37) % 700 {
+                return Err(format!("key {} has a value no commit wrote", k.value()));
+            }
+            match tag {
+                None => tag = Some(v[0]),
+                Some(t) if t != v[0] => return Err("a reader sees a mixture of two commits".into()),
+                _ => {}
+            }
+            n += 1;
+        }
+        if n != 30 {
+            return Err(format!("{n} of 30 keys present"));
+        }
+        Ok(tag.unwrap())
+    };
+    let kind = *rng.pick(&[K_SYNC, K_WRITE, K_ANY, K_SETLEN, K_WRITE]);
+    let at = rng.below(4);
+    let permanent = rng.bool();
+    let b_waiting = AtomicBool::new(false);
+    let a_ready = AtomicBool::new(false);
+    let a_result: std::sync::Mutex<Option<Result<(), String>>> = std::sync::Mutex::new(None);
+    let b_result: std::sync::Mutex<Option<String>> = std::sync::Mutex::new(None);
+    std::thread::scope(|s| {
+        let (db_a, db_b) = (db.clone(), db.clone());
+        let (be_a, a_ready, b_waiting, a_result, b_result) = (be.clone(), &a_ready, &b_waiting, &a_result, &b_result);
+        s.spawn(move || {
+            let r = guarded(|| -> Result<(), String> {
+                let txn = db_a.begin_write().map_err(|e| e.to_string())?;
+                {
+                    let mut t = txn.open_table(QT).map_err(|e| e.to_string())?;
+                    for i in 0..30u64 {
+                        t.insert(i, vec![2u8; 40 + (i as usize * 37) % 700].as_slice()).map_err(|e| e.to_string())?;
+                    }
+                }
+                a_ready.store(true, Ordering::SeqCst);
+                // let B reach the wait for the write slot
+                let t0 = std::time::Instant::now();
+                while !b_waiting.load(Ordering::SeqCst) && t0.elapsed() < std::time::Duration::from_secs(5) {
+                    std::thread::yield_now();
+                }
+                std::thread::sleep(std::time::Duration::from_millis(15));
+                be_a.set_fault(Fault::new(at, kind, permanent));
+                txn.commit().map_err(|e| format!("commit: {e}"))
+            });
+            *a_result.lock().unwrap() = Some(match r {
+                Ok(r) => r,
+                Err(p) => Err(format!("PANIC {}", p.short())),
+            });
+        });
+        s.spawn(move || {
+            while !a_ready.load(Ordering::SeqCst) {
+                std::thread::yield_now();
+            }
+            b_waiting.store(true, Ordering::SeqCst);
+            let r = guarded(|| -> String {
+                match db_b.begin_write() {
+                    Err(e) => format!("refused: {e}"),
+                    Ok(txn) => {
+                        // handed a transaction: what happens when it is used?
+                        let used = guarded(|| -> Result<(), String> {
+                            {
+                                let mut t = txn.open_table(QT).map_err(|e| e.to_string())?;
+                                for i in 0..30u64 {
+                                    t.insert(i, vec![3u8; 40 + (i as usize * 37) % 700].as_slice()).map_err(|e| e.to_string())?;
+                                }
+                            }
+                            txn.commit().map_err(|e| e.to_string())
+                        });
+                        match used {
+                            Ok(Ok(())) => "admitted: committed".into(),
+                            Ok(Err(e)) => format!("admitted: then failed with {e}"),
+                            Err(p) => format!("admitted: PANIC {}", p.short()),
+                        }
+                    }
+                }
+            });
+            *b_result.lock().unwrap() = Some(match r {
+                Ok(s) => s,
+                Err(p) => format!("PANIC in begin_write: {}", p.short()),
+            });
+        });
+    });
+    out.fired = be.lock().fault.fired > 0;
+    be.clear_fault();
+    let a = a_result.into_inner().unwrap().unwrap_or(Err("writer A did not finish".into()));
+    let b = b_result.into_inner().unwrap().unwrap_or_default();
+    out.commit_failed = a.is_err();
+    out.queued_refused = b.starts_with("refused");
+    let what = format!("{} failure of {} call #{at} during writer A's commit (A: {a:?}; queued writer B: {b})", if permanent { "permanent" } else { "one-shot" }, kind_name(kind));
+    if let Err(e) = &a {
+        if e.starts_with("PANIC") {
+            out.violation = Some(format!("{what}: the failing commit panicked"));
+        }
+    }
+    if out.violation.is_none() && b.contains("PANIC") {
+        out.violation = Some(format!("{what}: the write transaction handed out after the failure panicked"));
+    }
+    if out.violation.is_none() && out.fired && out.commit_failed && b.starts_with("admitted") {
+        out.violation = Some(format!("{what}: begin_write(), which was waiting for the write slot, handed out a transaction after the storage failure had been reported"));
+    }
+    // reads: an error, or exactly one of the states that were requested
+    if out.violation.is_none() {
+        match guarded(|| read_tag(&db)) {
+            Ok(Ok(t)) => {
+                // a commit that reported a failure may have taken effect entirely or not at all
+                let ok = t == 1 || t == 2 || (t == 3 && b.starts_with("admitted") && !b.contains("PANIC"));
+                if !ok {
+                    out.violation = Some(format!("{what}: a later reader sees state {t}"));
+                }
+            }
+            Ok(Err(e)) if e.starts_with("begin_read") || e.starts_with("open_table") || e.contains("I/O") || e.contains("injected") || e.contains("Previous") => {}
+            Ok(Err(e)) => out.violation = Some(format!("{what}: a later reader: {e}")),
+            Err(p) => out.violation = Some(format!("{what}: a later reader panicked: {}", p.short())),
+        }
+    }
+    drop(db);
+    if out.violation.is_none() {
+        let st = be.lock();
+        if let Some(v) = st.violations.first() {
+            out.violation = Some(format!("{what}: backend contract: {v}"));
+        } else if st.counts.close != 1 {
+            out.violation = Some(format!("{what}: close() called {} times", st.counts.close));
+        }
+    }
+    if out.violation.is_none() {
+        let be2 = MonBackend::from_image(be.image());
+        match guarded(|| cfg.builder().create_with_backend(be2)) {
+            Ok(Ok(mut db2)) => {
+                match read_tag(&db2) {
+                    Ok(t) if t == 1 || t == 2 || (t == 3 && b.starts_with("admitted")) => {}
+                    Ok(t) => out.violation = Some(format!("{what}: after reopening the storage shows state {t}")),
+                    Err(e) => out.violation = Some(format!("{what}: after reopening: {e}")),
+                }
+                if out.violation.is_none() {
+                    match guarded(|| db2.check_integrity()) {
+                        Ok(Ok(_)) => {}
+                        Ok(Err(e)) => out.violation = Some(format!("{what}: check_integrity after reopening: {e}")),
+                        Err(p) => out.violation = Some(format!("{what}: check_integrity after reopening panicked: {}", p.short())),
+                    }
+                }
+            }
+            Ok(Err(e)) => out.violation = Some(format!("{what}: the storage left behind cannot be reopened: {e}")),
+            Err(p) => out.violation = Some(format!("{what}: reopening panicked: {}", p.short())),
+        }
+    }
+    out
+}
+
 pub fn run(rep: &Report) {
     rep.set_rule(
         "case = (history, k, call kind, one-shot|permanent): the history is first run fault-free to count its backend calls N (after database creation), then re-run with the k-th call of the chosen kind (any/read/write/set_len/sync_data/len) failing; operations continue until one reports an error. Judged: no panic out of any redb call; no wrong result; after a reported I/O error begin_write (or the commit of a transaction it hands out) is refused; reads after the failure return an error or exactly a committed state between the last successful and the last requested commit; the database is dropped and the surviving storage -- as left, and under crash subsets of its unsynced tail -- is reopened without the fault: it must open, equal one commit point no older than the last acknowledged durable commit (the failed commit entirely or not at all), pass check_integrity, decode under the independent format decoder. quick samples k; thorough enumerates every k for part of the histories. distinct_nontrivial = distinct (history, k, kind, permanence) cases in which the fault actually fired",
@@ -380,10 +576,35 @@ pub fn run(rep: &Report) {
         }
     }
     rep.extra("exhaustive_histories", json!(exhaustive_hists));
+    let n_queued = match rep.tier {
+        Tier::Quick => 240u64,
+        Tier::Thorough => 6_000u64,
+    };
     run_cases(
         rep,
-        cases.len() as u64,
+        cases.len() as u64 + n_queued,
         |i| {
+            if i >= cases.len() as u64 {
+                let q = i - cases.len() as u64;
+                let o = queued_writer_case(rep.seed, q);
+                rep.eval(1);
+                rep.count("queued_writer.cases", 1);
+                if o.fired && o.commit_failed {
+                    rep.count("queued_writer.commit_failed_while_a_writer_was_queued", 1);
+                    rep.distinct(mix(0xC08, q));
+                    if o.queued_refused {
+                        rep.count("queued_writer.queued_begin_write_refused", 1);
+                    }
+                }
+                if let Some(e) = o.violation {
+                    rep.violation(
+                        format!("queued:{}", short_sig(&e)),
+                        format!("queued-writer case {q}: {e}"),
+                        json!({"check": "C08", "seed": rep.seed, "case": i, "case_index": i, "tier": rep.tier.name()}),
+                    );
+                }
+                return;
+            }
             let (h, spec) = cases[i as usize];
             let replay = json!({"check": "C08", "seed": rep.seed, "case": h, "tier": rep.tier.name(),
                 "fault": {"k": spec.k, "mask": spec.mask, "permanent": spec.permanent}});
